@@ -1,5 +1,5 @@
 (* C06 - Primary error = furthest failure, with merged expectations and a truthful span. *)
-From Chum Require Import Corollaries Furthest.
+From Chum Require Import Corollaries Furthest Shelter.
 
 (* After any run, successful or failing, the pending (primary) error of the machine is the
    register computed by the specification: take/restore dances of try_map, labelled, map_err,
@@ -49,7 +49,23 @@ Example C06_F2_refuted :
     = TRes None [mkErr (2, 3) (REF [pTok 99%N] (Some 100%N)) []].
 Proof. split; vm_compute; reflexivity. Qed.
 
+(* merging pending errors is associative (expected sets are kept as sorted lists, which every error the parsers create is) *)
+Theorem C06_merging_pending_errors_is_associative :
+  forall K a b c, wfr a -> wfr b -> Sem.join K (Sem.join K a b) c = Sem.join K a (Sem.join K b c).
+Proof. exact join_assoc. Qed.
+
+(* parsers (without recover_with / extension parsers, which read it) only ever MERGE their failures into the pending
+   error: started from the register (join a r) they give the same outcome and the register (join a r'); so the union of
+   expectations at the furthest position does not depend on how the alternatives are nested or sheltered *)
+Theorem C06_parsers_only_merge_into_the_pending_error :
+  forall K toks spn n g ctx p r o r', norec g = true -> envok ctx -> wfr r ->
+    sem K toks spn n g ctx p r = Some (o, r') ->
+    wfr r' /\ forall a, wfr a -> sem K toks spn n g ctx p (Sem.join K a r) = Some (o, Sem.join K a r').
+Proof. exact sem_lift. Qed.
+
 Print Assumptions C06_pending_error_is_specified.
+Print Assumptions C06_merging_pending_errors_is_associative.
+Print Assumptions C06_parsers_only_merge_into_the_pending_error.
 Print Assumptions C06_pending_error_only_moves_forward.
 Print Assumptions C06_last_error_is_register.
 Print Assumptions C06_try_map_error_preserved.
